@@ -263,6 +263,8 @@ class BaseParser(xml.sax.ContentHandler):
 
     def characters_default(self, data):
         key = self._attrs.get("key")
+        if self._stack[-1].minOccurs:
+            self.error("required key cannot have default values")
         self._stack[-1].adddefault(data, self._position, key)
 
     def characters_description(self, data):
